@@ -104,13 +104,13 @@ def gen_noise(rng):
     for _ in range(rng.range(1, 3)):
         k = rng.below(9)
         if k == 0:
-            a.append(["exec", "0102030405", "OP_1ADD"]); b.append(["exec", "0102030405"])          # throws after the push
+            a.append(["exec", "0102030405", "OP_1ADD"]); b.append(["exec", "0102030405", "OP_NOP"])  # throws after the push (the op is counted)
         elif k == 1:
-            a.append(["exec", "5", "0102030405", "OP_ADD"]); b.append(["exec", "5", "0102030405"])
+            a.append(["exec", "5", "0102030405", "OP_ADD"]); b.append(["exec", "5", "0102030405", "OP_NOP"])
         elif k == 2:
-            a.append(["exec", "OP_0", "OP_VERIFY"]); b.append(["exec", "OP_0"])                      # fails, operand stays
+            a.append(["exec", "OP_0", "OP_VERIFY"]); b.append(["exec", "OP_0", "OP_NOP"])            # fails, operand stays
         elif k == 3:
-            a.append(["exec", "7", "OP_RETURN"]); b.append(["exec", "7"])
+            a.append(["exec", "7", "OP_RETURN"]); b.append(["exec", "7", "OP_NOP"])
         elif k == 4:
             a.append(["tf", "int", "0x0102030405"])                                                  # throws inside tf
         elif k == 5:
@@ -120,7 +120,7 @@ def gen_noise(rng):
         elif k == 7:
             a.append(["tf", "sha256", "0x01"]); a.append(["print"])
         else:
-            a.append(["exec", "OP_RESERVED"]); b.append(["exec", "OP_NOP"])                          # bad opcode: no stack effect; NOP: none either
+            a.append(["exec", "OP_RESERVED"])                                                        # bad opcode: no effect at all (not even counted)
     return a, b
 
 
